@@ -44,6 +44,11 @@ CHECKS = {
    technique="deterministic simulation: full chain + real resolver over generated attack topologies; per-question packet counting at the simulated network; metamorphic twin runs (shadow vs off)",
    text="Seeded search over attack topologies (CNAME chains/cycles across zones, DNAME ping-pong, glueless NS cycles, fan-out and deep referral chains, lame/self-referring servers, many colliding DNSKEYs and RRSIGs, high-iteration NSEC3), budgets from 1 upward, modes off/shadow/enforce, qname minimisation on/off; every question terminates within the query timeout, enforce-mode upstream attempts per question (UDP datagrams + TCP connections, counted to quiescence) never exceed max_outbound_queries, a budget failure is never served to a second client from a cache, and a shadow run equals an off run.",
    note="Only the outbound budget is visible on the wire; internal sub-query and DNSSEC-operation budgets are not compared. The 'EDE on the over-budget SERVFAIL' clause is recorded as a probe, not asserted, because over-budget cannot be told from a failing last attempt from outside."),
+ "C13": dict(
+   level="exploration", design="§3 C13",
+   technique="deterministic simulation: full chain + real resolver on fake clock with scripted server outages and request-local failure causes; suppression/back-off envelope model as oracle",
+   text="Seeded search over outage scripts (all servers of a zone silent / SERVFAIL / REFUSED / slower than the client's deadline), timed question histories with immediate repeats across names, types and CD values, client-side deadlines and tiny enforce-mode budgets (request-local causes), random valid min/max failure TTLs, tiny failure-cache sizes and rfc9520 on/off. Every SERVFAIL+EDE 13 served without upstream traffic must be justified by a genuine failure of that question or of a zone at or above the name inside a window that starts at the minimum, at most doubles per consecutive failure and never exceeds the maximum; request-local failures open no window; rfc9520 off means no suppression.",
+   note="Which zone a failure is blamed on depends on cached delegations, so every failing zone on the path is credited (generous). The single-probe-after-expiry clause and ECS audiences are not asserted here."),
 }
 
 NOT_APPLICABLE = {
